@@ -1,5 +1,5 @@
 //! parsedrive <cases.ndjson> <obs.ndjson>: parse each text in-process; record diagnostics and the re-rendered tokens.
-//! case: {id, text}   observation: {id, ndiags, diags, rendered, panic, ntokens}
+//! case: {id, text [, files: {name: text}, render: name]}   observation: {id, ndiags, diags, rendered, panic, ntokens}
 use mosverif::{diags_to_json, guarded, install_panic_hook};
 use mos_core::parser::parse;
 use mos_core::parser::source::InMemoryParsingSource;
@@ -16,13 +16,26 @@ fn main() {
             mosverif::drive(&i, &o, |v: &Value| {
                 let text = v["text"].as_str().unwrap_or("").to_string();
                 let id = v["id"].clone();
+                let extra: Vec<(String, String)> = v["files"]
+                    .as_object()
+                    .map(|m| m.iter().map(|(k, t)| (k.clone(), t.as_str().unwrap_or("").to_string())).collect())
+                    .unwrap_or_default();
+                let render: Option<String> = v["render"].as_str().map(|s| s.to_string());
                 let r = guarded(move || {
-                    let src = InMemoryParsingSource::new().add("main.asm", &text);
+                    // optional: further files of the project ({name: text}) and the name of the file whose tokens are rendered
+                    let mut src = InMemoryParsingSource::new().add("main.asm", &text);
+                    for (name, t) in &extra {
+                        src = src.add(name.as_str(), t.as_str());
+                    }
                     let (tree, err) = parse(Path::new("main.asm"), src.into());
-                    let rendered = tree.as_ref().map(|t| {
-                        t.main_file().tokens.iter().map(|e| format!("{}", e)).collect::<Vec<_>>().join("")
+                    let pick = |t: &std::sync::Arc<mos_core::parser::ParseTree>| match &render {
+                        Some(name) => t.try_get_file(name.as_str()).cloned(),
+                        None => Some(t.main_file().clone()),
+                    };
+                    let rendered = tree.as_ref().and_then(|t| pick(t)).map(|f| {
+                        f.tokens.iter().map(|e| format!("{}", e)).collect::<Vec<_>>().join("")
                     });
-                    let ntokens = tree.as_ref().map(|t| t.main_file().tokens.len()).unwrap_or(0);
+                    let ntokens = tree.as_ref().and_then(|t| pick(t)).map(|f| f.tokens.len()).unwrap_or(0);
                     (diags_to_json(&err), rendered, ntokens)
                 });
                 match r {
